@@ -23,7 +23,7 @@ EXPLANATION = (
     "The assembly masked-word toolkit is lifted likewise and run through the same word/key/state/AEAD obligations as the C backend."
 )
 ASSUMPTIONS = [
-    "x86-64 masked assembly: the three permutations ascon_x2/x3/x4_permute are verified through tools/lift_x86_64.py (ASCON_MASKED_MAX_SHARES == 4 layout; instruction table, calling convention and 'first_round arrives zero-extended' trusted; quick tier: all rounds for x2, a seed-rotated third for x3, three for x4; thorough: all); the assembly masked WORD toolkit (ascon-word-asm-x86-64.S, 35 functions) is verified through the same lifter (additionally trusted: bswapq, movl/movzbl/movb forms, shrq %cl, call = C call with caller-saved registers havocked, a 32-bit 'unsigned size' argument arriving zero-extended) for the ASCON_MASKED_MAX_SHARES == 4 layout only; the 32-bit C and direct-xor masked word backends are not covered",
+    "x86-64 masked assembly: the three permutations ascon_x2/x3/x4_permute are verified through tools/lift_x86_64.py (ASCON_MASKED_MAX_SHARES == 4 layout in the quick tier, all three layouts in the thorough tier; instruction table, calling convention and 'first_round arrives zero-extended' trusted; quick tier: all rounds for x2, a seed-rotated third for x3, three for x4; thorough: all); the assembly masked WORD toolkit (ascon-word-asm-x86-64.S, 35 functions) is verified through the same lifter (additionally trusted: bswapq, movl/movzbl/movb forms, shrq %cl, call = C call with caller-saved registers havocked, a 32-bit 'unsigned size' argument arriving zero-extended) for the ASCON_MASKED_MAX_SHARES == 4 layout (quick) and the 3 and 2 layouts (thorough; a third of the rounds for the permutations); the 32-bit C masked word backend is covered in the thorough tier except its three x*_xor functions (CBMC union anomaly); the direct-xor masked word backend is not covered",
     "masked AEAD: plain-assertion groups (no DFCC frame; exactly sized buffers), constant lengths enumerated around the block boundaries (not every length); masked permutations inside them are specification stubs carrying the contract proved by the c10.permute groups",
     "quick tier: x4 permutation round lemma (10 min solver time) is in the thorough tier only",
 ]
@@ -44,5 +44,13 @@ def groups(tier):
     gs += common.masked_key_groups("c10", ["C10"], cfg="DEF")
     gs += common.masked_state_groups("c10", ["C10"], cfg="DEF")
     gs += common.masked_aead_groups("c10", ["C10"], tier, cfg="DEF")
-    gs += common.masked_asm_permute_groups("c10", ["C10"], tier, seed=int(os.environ.get("VERIF_SEED", "0") or 0))
+    gs += common.masked_asm_permute_groups("c10", ["C10"], tier, seed=int(os.environ.get("VERIF_SEED", "0") or 0),
+                                           layouts=(4,) if tier == "quick" else (4, 3, 2))
+    if tier == "thorough":
+        # 32-bit C masked-word backend; x*_xor excluded: it stores through S[] and every other member is read through W[],
+        # which CBMC 6.11 mis-reports (union anomaly, DESIGN B.5) - a false alarm that is not raised
+        gs += [g for g in common.masked_word_groups("c10", ["C10"], cfg="C32", max_shares=4) if "_xor." not in g.name]
+    if tier == "thorough":      # the assembly word toolkit in the other word layouts (ASCON_MASKED_MAX_SHARES 3 and 2)
+        gs += common.masked_word_groups("c10", ["C10"], cfg="DEF", max_shares=3)
+        gs += common.masked_word_groups("c10", ["C10"], cfg="DEF", max_shares=2)
     return gs
